@@ -1,7 +1,8 @@
 # C01, end-to-end composition for quality 2/3 (w-e2e, session 4): the payload model BV/Model/E2E.lean as a concrete
 # oracle of the stream machine, tied by the `e2e` stage
-if "BV.Props.C01E2E" not in PROPS["C01"]["lean_modules"]:
-    PROPS["C01"]["lean_modules"] = PROPS["C01"]["lean_modules"] + ["BV.Props.C01E2E"]
+for _m in ["BV.Props.C01E2E", "BV.Props.C01E2ERun"]:
+    if _m not in PROPS["C01"]["lean_modules"]:
+        PROPS["C01"]["lean_modules"] = PROPS["C01"]["lean_modules"] + [_m]
 PROPS["C01"]["stages"] = PROPS["C01"]["stages"] + [{"name": "e2e", "cmd": ["e2e"]}]
 PROPS["C01"]["level_text"] += " " + (
     "End-to-end instance for quality 2 and 3 (model BV/Model/E2E.lean `encodeDataPayload`, BV/Model/E2EStream.lean `payAns`/`stepLoop`): "
@@ -13,7 +14,7 @@ PROPS["C01"]["level_text"] += " " + (
     "ends up stored and the catable placeholder cache — is an EXECUTABLE model, i.e. a concrete instance of the oracle the stream model "
     "takes as a parameter; should_compress (a float decision) is an arbitrary verdict. The `e2e` stage runs the real encoder on whole call "
     "histories (PROCESS / FLUSH / FINISH, catable / appendable / magic / large_window / size_hint variants, static dictionary on and off, "
-    "multi-block inputs that keep a meta-block open across invocations and take the extend_last_command path) and the Lean driver COMPUTES from "
+    "multi-block inputs that keep a meta-block open across invocations and take the extend_last_command path; quick tier: 32 histories, about 9 CPU-seconds of driver time, 9 kept-open invocations and 3 on the extend_last_command path; thorough tier: 1200 histories, larger windows and texts) and the Lean driver COMPUTES from "
     "the input bytes alone — ring buffer, hasher tables, commands, distance caches, meta-block boundaries, stored/compressed decision and every "
     "output byte: per call the return value, bytes consumed, length and digest of the bytes produced, and per encode_data invocation emit/wrote "
     "flags, number and digest of the commands, dist_cache_ (16), saved_dist_cache_, last_insert_len_, num_literals_, last_processed_pos_, "
@@ -28,19 +29,31 @@ PROPS["C01"]["level_text"] += " " + (
     "commands_lockstep_basic (CreateBackwardReferences over the H2/H3 models, nothing assumed of the hasher), fast/trivial_metablock_roundtrip and "
     "wmbi_reads (size fallback, stored path) THROUGH the model of encode_data's own bookkeeping; its hypotheses are the ones already named in C01Chain "
     "(BlockOK = the ring slice holds the text, proved from RingOK; DictFaithful, vacuous with the dictionary off), positions below 2^30 and at most "
-    "255 bits already in the storage; no hypothesis about the payload encoder."
+    "255 bits already in the storage; no hypothesis about the payload encoder. "
+    "Chained (BV.Props.C01E2ERun): payload_step_roundtrip names the reader's final state — (history ++ block, dist_cache_[..4] AFTER the invocation), "
+    "using w-compose's cbr_final_state for the compressed outcome and, for the stored outcome (verdict false or the len+4 fallback), the fact that the "
+    "reader's ring is untouched while the model rolls dist_cache_ back to saved_dist_cache_ (wmbi_reads_state); it re-establishes the invariant Fresh "
+    "(no pending commands, i32 cache of >= 4 entries, saved_dist_cache_ = dist_cache_[..4]), which ensure_initialized's state satisfies (fresh_init, "
+    "incl. the catable placeholder cache). payload_run_roundtrip: for every sequence of forced invocations over a text T (FLUSH / FINISH histories: "
+    "each invocation closes the meta-block [lf, ip) it was given), run by the payload model from a Fresh state, piece i is read by the RFC reader from "
+    "(T[..ip_{i-1}], ring_{i-1}) to (T[..ip_i], ring_i = dist_cache_[..4] after invocation i), the last one as the end of the stream if is_last — the "
+    "reader state is threaded through all pieces with no hypothesis about the payload encoder (per invocation: BlockOK, DictFaithful, positions < 2^30, "
+    "< 256 storage bits). writePart_roundtrip (the closing half of encode_data) is stated for ANY command list in lock step with the decoder, so it also "
+    "serves meta-blocks assembled from several CreateBackwardReferences calls."
 )
 PROPS["C01"]["level_note"] += " " + (
     "E2E model scope: quality 2 and 3 only (BasicHasher H2/H3; quality 4's H4/H54 + greedy block splitting is not composed); positions below "
     "3 GiB (HasherReset after the position wrap is outcome `fuel`); the commands_ re-allocation, prev_byte_/prev_byte2_, ChooseContextMode and the "
     "recoder callback are not modelled (not read by the quality 2/3 writers); the static dictionary enters through per-position slots supplied by "
     "the harness (the Lean project has no copy of the dictionary), EMIT_METADATA calls are not driven by the e2e stage. "
-    "NOT proved: the whole-history statement C01_roundtrip_q23 (PiecesOK of C01_roundtrip_run discharged for the concrete oracle). Missing: (1) the "
-    "decoder's distance ring after a block = dist_cache_[..4] after the invocation (holds inside cbr_lockstep after every command, not exported; for the "
-    "stored outcome it is the saved_dist_cache_ rollback, which the model performs and the e2e stage compares); (2) meta-blocks spanning several "
-    "invocations (emit = false, extend_last_command, a second CreateBackwardReferences on the same command list); (3) the induction over the log of "
-    "delivered_is_framed_concat with the payload state threaded through and RingOK at every encode_data event. payload_single_roundtrip covers the "
-    "histories in which every invocation is forced and starts a fresh meta-block only per invocation, not yet chained. The model itself has explicit "
+    "NOT proved: the whole-history statement C01_roundtrip_q23 (PiecesOK of C01_roundtrip_run discharged for the concrete oracle). Missing: (1) "
+    "meta-blocks spanning several invocations (emit = false, extend_last_command, a second CreateBackwardReferences on the same command list): the "
+    "closing half is ready (writePart_roundtrip takes any command list), the front half for a non-Fresh state — instantiating w-compose's Merged / "
+    "Merged.extend with the model's pending commands — is not done; (2) the bit position: every piece is read at the position |w_i| of its own storage "
+    "(carry + skeleton), gluing the pieces into one readMetaBlocks run over the delivered stream needs the reader to depend on the position only mod 8 "
+    "(w-window's C04Run blocks_one / PayloadDecode is the reader-side bridge; the instantiation is not stated); (3) the induction over the log of "
+    "delivered_is_framed_concat that supplies StepsOK (BlockOK from RingOK at every encode_data event, lf / ip / flags / carry from the log). "
+    "payload_run_roundtrip covers, at the payload level, the histories in which every invocation is forced. The model itself has explicit "
     "panic outcomes (slice bounds of the hasher and the writers); the theorem is conditional on the model returning (the writers' no-panic is proved "
     "inside it, the hasher's and extend_last_command's slice bounds are not)."
 )
